@@ -75,8 +75,10 @@ type CPTVFileRecorder struct {
 	constantRecorder bool
 }
 
+const constantRecordingsDir = "constant-recordings"
+
 func (cfr *CPTVFileRecorder) SetAsConstantRecorder() error {
-	folder := path.Join(cfr.outputDir, "/constant-recordings")
+	folder := path.Join(cfr.outputDir, constantRecordingsDir)
 	cfr.outputDir = folder
 	cfr.constantRecorder = true
 	return os.Mkdir(folder, 0755)
@@ -176,10 +178,13 @@ func recordingFinalName(filename string) string {
 
 func deleteTempFiles(directory string) error {
 	// A recording in progress consists of <name>.cptv.temp and the CPTV writer's scratch file <name>.cptv.temp.tmp.
-	matches, _ := filepath.Glob(filepath.Join(directory, "*."+cptvTempExt+"*"))
-	for _, filename := range matches {
-		if err := os.Remove(filename); err != nil {
-			return err
+	// The constant recorder keeps its files in a sub-directory of the output directory.
+	for _, dir := range []string{directory, filepath.Join(directory, constantRecordingsDir)} {
+		matches, _ := filepath.Glob(filepath.Join(dir, "*."+cptvTempExt+"*"))
+		for _, filename := range matches {
+			if err := os.Remove(filename); err != nil {
+				return err
+			}
 		}
 	}
 	return nil
